@@ -42,8 +42,36 @@ def ref_fulllines(s):       # datareader.fullline_pattern.finditer(s): maximal \
 def ref_eod(line):          # datareader.eod_pattern.match(line) on a line ending in its only \n
     return line[:1] == b'.' and all(c in WS for c in line[1:-1])
 
+def ref_reply_line(s, p):  # io.reply_line_pattern.match(s, p)
+    nl = s.find(b'\n', p)
+    if nl < p + 4:
+        return None
+    if not (s[p:p+3].isdigit() and all(48 <= c <= 57 for c in s[p:p+3]) and s[p+3:p+4] in (b' ', b'\t', b'-')):
+        return None
+    g4 = strip_one_cr(s[p+4:nl])
+    return (nl + 1, s[p:p+3], s[p+3:p+4], g4, s[p:p+3] + s[p+3:p+4] + g4)
+
+def ref_line_at(s, p):      # io.line_pattern.match(s, p)
+    nl = s.find(b'\n', p)
+    if nl < 0:
+        return None
+    return (nl + 1, strip_one_cr(s[p:nl]))
+
 cases = 0
 failures = []
+reply_line_pattern = pattern('slimta/smtp/io.py', 'reply_line_pattern')
+line_pattern = pattern('slimta/smtp/io.py', 'line_pattern')
+ALPHA2 = [b'2', b'5', b'-', b' ', b'\r', b'\n', b'a']
+for n in range(0, MAXLEN + 1):
+    for tup in itertools.product(ALPHA2, repeat=n):
+        s = b''.join(tup)
+        for p in range(0, min(n, 2) + 1):
+            cases += 1
+            m = reply_line_pattern.match(s, p)
+            got = (m.end(0), m.group(2), m.group(3), m.group(4), m.group(1)) if m else None
+            if got != ref_reply_line(s, p):
+                failures.append(dict(pattern='io.reply_line_pattern', input=repr(s), pos=p, expected=repr(ref_reply_line(s, p)), got=repr(got)))
+
 ALPHA = [b'.', b'\r', b'\n', b'a', b' ']
 line_pattern = pattern('slimta/smtp/io.py', 'line_pattern')
 fullline_pattern = pattern('slimta/smtp/datareader.py', 'fullline_pattern')
@@ -52,6 +80,12 @@ for n in range(0, MAXLEN + 1):
     for tup in itertools.product(ALPHA, repeat=n):
         s = b''.join(tup)
         cases += 1
+        for p in (1, 2):
+            if p <= n:
+                m = line_pattern.match(s, p)
+                got = (m.end(0), m.group(1)) if m else None
+                if got != ref_line_at(s, p):
+                    failures.append(dict(pattern='io.line_pattern', input=repr(s), pos=p, expected=repr(ref_line_at(s, p)), got=repr(got)))
         m = line_pattern.match(s)
         got = (m.end(0), m.group(1)) if m else None
         if got != ref_line(s):
@@ -64,4 +98,4 @@ for n in range(0, MAXLEN + 1):
             if got != ref_eod(s):
                 failures.append(dict(pattern='datareader.eod_pattern', input=repr(s), expected=ref_eod(s), got=got))
 print(json.dumps(dict(cases=cases, n_failures=len(failures), failures=failures[:5],
-                      bound='all byte strings of length <= %d over {. CR LF a SP}' % MAXLEN)))
+                      bound='all byte strings of length <= %d over {. CR LF a SP} (line/fullline/eod) and over {2 5 - SP CR LF a} at positions 0..2 (reply_line)' % MAXLEN)))
